@@ -1,5 +1,5 @@
 (* C01 -- lemmas about the model of FileSet.find (Model/C01_find.v). *)
-From Coq Require Import ZArith List Bool Lia ZifyBool Permutation Sorted.
+From Coq Require Import ZArith List Bool Lia ZifyBool Permutation Sorted RelationClasses.
 From Typhon Require Import Base.Calendar Base.CalendarProofs Model.C03_tree Proofs.C03_tree Model.C01_find.
 Import ListNotations.
 Open Scope Z_scope.
@@ -441,3 +441,232 @@ Proof. intros H. unfold single_find. replace (e - 1 <? s) with false by lia. f_e
 
 Lemma single_find_err cov s e : e <= s -> single_find cov s e = None.
 Proof. intros H. unfold single_find. replace (e - 1 <? s) with true by lia. reflexivity. Qed.
+
+(* ================================================================== C01 extension: stability, time bins *)
+(* ------------------------------------------------------------------ stability of the sort *)
+
+Lemma insert_key_stable a b x l : Sorted key_rel l ->
+  filter (has_key a b) (insert_key x l) = filter (has_key a b) (x :: l).
+Proof.
+  induction l as [|y t IH]; intros Hs; cbn [insert_key]; [reflexivity|].
+  destruct (key_le x y) eqn:E; [reflexivity|].
+  inversion Hs as [|? ? Hst Hhd]; subst.
+  cbn [filter]. rewrite (IH Hst). cbn [filter].
+  destruct (has_key a b x) eqn:Hx; [|reflexivity].
+  destruct (has_key a b y) eqn:Hy; [|reflexivity].
+  exfalso. unfold has_key, key_le in *. lia.
+Qed.
+
+Lemma sort_key_stable a b l : filter (has_key a b) (sort_key l) = filter (has_key a b) l.
+Proof.
+  induction l as [|x t IH]; cbn [sort_key fold_right]; [reflexivity|]. fold (sort_key t).
+  rewrite (insert_key_stable a b x (sort_key t) (sort_key_sorted t)). cbn [filter]. rewrite IH. reflexivity.
+Qed.
+
+Lemma filter_filter_comm {A} (p r : A -> bool) l : filter p (filter r l) = filter (fun x => r x && p x) l.
+Proof.
+  induction l as [|x t IH]; cbn [filter]; [reflexivity|].
+  destruct (r x); cbn [filter andb]; [destruct (p x)|]; rewrite IH; reflexivity.
+Qed.
+
+(* whatever the input (no hypothesis on layout, files or period): when find returns, the files of one
+   coverage (a, b) appear in the order of the stream of found files, which is the order of fs *)
+Lemma find_gen_stable local lay fs q l a b : find_gen local lay fs q = Ok l ->
+  filter (has_key a b) l = filter (fun f => found local lay q f && has_key a b f) fs.
+Proof.
+  unfold find_gen. destruct (qend q - 1 <? qstart q); [discriminate|].
+  destruct (dir_start lay (qstart q) <? 0); [discriminate|].
+  intros H. injection H as <-. rewrite sort_key_stable. apply filter_filter_comm.
+Qed.
+
+Lemma find_spec_stable fs q a b :
+  filter (has_key a b) (find_spec fs q) = filter (fun f => selected q f && has_key a b f) fs.
+Proof. unfold find_spec. rewrite sort_key_stable. apply filter_filter_comm. Qed.
+
+Lemma find_sorted_stable_lemma lay fs q :
+  no_gaps lay = true -> Forall well_placed fs -> Forall (short lay) fs -> Forall valid_file fs ->
+  wf_query q -> lookback_ok lay q ->
+  exists l, find_model lay fs q = Ok l /\
+    forall a b, filter (has_key a b) l = filter (fun f => selected q f && has_key a b f) fs.
+Proof.
+  intros. exists (find_spec fs q). split; [apply find_model_spec; assumption|].
+  intros a b. apply find_spec_stable.
+Qed.
+
+(* ------------------------------------------------------------------ sorted + stable determines the result *)
+
+Lemma key_rel_trans : Transitive key_rel.
+Proof. intros x y z. unfold key_rel, key_le. lia. Qed.
+
+Lemma sorted_head_le x l y : Sorted key_rel (x :: l) -> In y l -> key_rel x y.
+Proof.
+  intros Hs Hin. apply (Sorted_StronglySorted key_rel_trans) in Hs.
+  inversion Hs as [|? ? _ Hall]; subst. rewrite Forall_forall in Hall. apply Hall. exact Hin.
+Qed.
+
+Lemma has_key_self x : has_key (t0 x) (t1 x) x = true.
+Proof. unfold has_key. lia. Qed.
+
+Lemma in_filter_key y l : In y l -> In y (filter (has_key (t0 y) (t1 y)) l).
+Proof. intros H. apply filter_In. split; [exact H|apply has_key_self]. Qed.
+
+(* two key-sorted lists with the same sub-sequence of files for every key are equal *)
+Lemma stable_sorted_unique_lemma : forall l1 l2,
+  Sorted key_rel l1 -> Sorted key_rel l2 ->
+  (forall a b, filter (has_key a b) l1 = filter (has_key a b) l2) -> l1 = l2.
+Proof.
+  induction l1 as [|x t1' IH]; intros l2 S1 S2 H.
+  - destruct l2 as [|y t2']; [reflexivity|]. specialize (H (t0 y) (t1 y)). cbn [filter] in H.
+    rewrite has_key_self in H. discriminate.
+  - destruct l2 as [|y t2'].
+    + specialize (H (t0 x) (t1 x)). cbn [filter] in H. rewrite has_key_self in H. discriminate.
+    + assert (Hxy : x = y).
+      { pose proof (H (t0 x) (t1 x)) as Hx. cbn [filter] in Hx. rewrite has_key_self in Hx.
+        destruct (has_key (t0 x) (t1 x) y) eqn:Ey; [injection Hx as Hx _; exact Hx|].
+        (* y has another key: x occurs later in l2 and some y' with the key of y occurs in l1 *)
+        exfalso.
+        assert (Hx2 : In x t2').
+        { assert (I : In x (filter (has_key (t0 x) (t1 x)) t2')) by (rewrite <- Hx; left; reflexivity).
+          apply filter_In in I. tauto. }
+        pose proof (sorted_head_le y t2' x S2 Hx2) as Lyx.
+        pose proof (H (t0 y) (t1 y)) as Hy. cbn [filter] in Hy. rewrite has_key_self in Hy.
+        assert (Hnk : has_key (t0 y) (t1 y) x = false) by (unfold has_key in *; lia).
+        rewrite Hnk in Hy.
+        assert (I : In y (filter (has_key (t0 y) (t1 y)) t1')) by (rewrite Hy; left; reflexivity).
+        apply filter_In in I. destruct I as [I _].
+        pose proof (sorted_head_le x t1' y S1 I) as Lxy.
+        unfold key_rel, key_le, has_key in *. lia. }
+      subst y. f_equal. apply IH.
+      * inversion S1; assumption.
+      * inversion S2; assumption.
+      * intros a b. specialize (H a b). cbn [filter] in H. destruct (has_key a b x); [injection H as H; exact H|exact H].
+Qed.
+
+(* hence: a list is the result of find iff it is key-sorted and keeps, key by key, the order of the stream *)
+Lemma find_spec_characterised fs q l :
+  l = find_spec fs q <->
+  Sorted key_rel l /\ forall a b, filter (has_key a b) l = filter (has_key a b) (filter (selected q) fs).
+Proof.
+  split.
+  - intros ->. split; [apply sort_key_sorted|]. intros a b. unfold find_spec. apply sort_key_stable.
+  - intros [S H]. apply stable_sorted_unique_lemma; [exact S|apply sort_key_sorted|].
+    intros a b. rewrite H. unfold find_spec. symmetry. apply sort_key_stable.
+Qed.
+
+
+
+(* ------------------------------------------------------------------ time bins: edges, complete bins *)
+
+(* bin k of width w anchored at o is the semi-open interval [o + k w, o + (k+1) w) *)
+Lemma bin_edges_lemma (w o t k : Z) : 0 < w -> ((t - o) / w = k <-> o + k * w <= t < o + (k + 1) * w).
+Proof.
+  intros Hw. split.
+  - intros <-. pose proof (Z.mul_div_le (t - o) w Hw). pose proof (Z.mul_succ_div_gt (t - o) w Hw). lia.
+  - intros H. symmetry. apply (Z.div_unique_pos (t - o) w k (t - o - k * w)); lia.
+Qed.
+
+Definition groups_increase {A} (b : A -> Z) : list (list A) -> Prop :=
+  StronglySorted (fun g1 g2 => forall x y, In x g1 -> In y g2 -> b x < b y).
+
+Lemma in_concat_group {A} (gs : list (list A)) g x : In g gs -> In x g -> In x (concat gs).
+Proof. intros Hg Hx. apply in_concat. exists g. tauto. Qed.
+
+(* on a sequence whose bin numbers never decrease, the runs have strictly increasing bin numbers *)
+Lemma group_runs_increase {A} (b : A -> Z) (l : list A) :
+  StronglySorted (fun x y => b x <= b y) l -> groups_increase b (group_runs b l).
+Proof.
+  induction l as [|x t IH]; intros Hs; cbn [group_runs]; [constructor|].
+  apply StronglySorted_inv in Hs. destruct Hs as [Hst Hall]. specialize (IH Hst). rewrite Forall_forall in Hall.
+  destruct (group_runs_ok b t) as (Hc & _ & Hsb & _).
+  destruct (group_runs b t) as [|g gs] eqn:E; [repeat constructor|].
+  destruct g as [|y g]; [repeat constructor|].
+  apply StronglySorted_inv in IH. destruct IH as [IHgs IHall]. rewrite Forall_forall in IHall.
+  pose proof (Forall_inv Hsb) as Hsg.
+  assert (Hyt : forall v, In v (y :: g) -> In v t).
+  { intros v Hv. rewrite <- Hc. apply (in_concat_group _ (y :: g)); [left; reflexivity|exact Hv]. }
+  destruct (b x =? b y) eqn:Exy.
+  - constructor; [exact IHgs|]. apply Forall_forall. intros g2 Hg2 u v [<-|Hu] Hv.
+    + assert (b y < b v) by (apply (IHall g2 Hg2); [left; reflexivity|exact Hv]). lia.
+    + apply (IHall g2 Hg2); assumption.
+  - assert (Hlt : b x < b y) by (assert (b x <= b y) by (apply Hall, Hyt; left; reflexivity); lia).
+    constructor; [constructor; [exact IHgs|apply Forall_forall; exact IHall]|]. apply Forall_forall. intros g2 [<-|Hg2] u v [<-|[]] Hv.
+    + assert (b v = b y) by (apply Hsg; [exact Hv|left; reflexivity]). lia.
+    + assert (b y < b v) by (apply (IHall g2 Hg2); [left; reflexivity|exact Hv]). lia.
+Qed.
+
+Lemma filter_all {A} (p : A -> bool) l : (forall x, In x l -> p x = true) -> filter p l = l.
+Proof.
+  induction l as [|x t IH]; intros H; cbn [filter]; [reflexivity|].
+  rewrite (H x (or_introl eq_refl)). f_equal. apply IH. intros y Hy. apply H. right. exact Hy.
+Qed.
+
+Lemma filter_none {A} (p : A -> bool) l : (forall x, In x l -> p x = false) -> filter p l = [].
+Proof.
+  induction l as [|x t IH]; intros H; cbn [filter]; [reflexivity|].
+  rewrite (H x (or_introl eq_refl)). apply IH. intros y Hy. apply H. right. exact Hy.
+Qed.
+
+(* groups with one bin each and increasing bins: each group is ALL of the sequence that falls into its bin *)
+Lemma groups_complete {A} (b : A -> Z) (gs : list (list A)) :
+  Forall (same_bin b) gs -> groups_increase b gs ->
+  forall g x, In g gs -> In x g -> g = filter (fun f => b f =? b x) (concat gs).
+Proof.
+  induction gs as [|g1 rest IH]; intros Hsb Hinc g x Hg Hx; [destruct Hg|].
+  inversion Hsb as [|? ? Hs1 Hsr]; subst. inversion Hinc as [|? ? Hir Hall]; subst. rewrite Forall_forall in Hall.
+  cbn [concat]. rewrite filter_app. destruct Hg as [<-|Hg].
+  - rewrite filter_all, filter_none; [symmetry; apply app_nil_r| |].
+    + intros v Hv. apply in_concat in Hv. destruct Hv as (g2 & Hg2 & Hv).
+      assert (b x < b v) by (apply (Hall g2 Hg2); assumption). lia.
+    + intros v Hv. assert (b v = b x) by (apply Hs1; assumption). lia.
+  - rewrite filter_none; [cbn [app]; apply IH; assumption|].
+    intros v Hv. assert (b v < b x) by (apply (Hall g Hg); assumption). lia.
+Qed.
+
+Lemma sorted_t0_mono l : Sorted key_rel l -> StronglySorted (fun x y : file => t0 x <= t0 y) l.
+Proof.
+  intros Hs. apply (Sorted_StronglySorted key_rel_trans) in Hs.
+  induction Hs as [|x t Hst IH Hall]; constructor; [exact IH|].
+  rewrite Forall_forall in *. intros y Hy. specialize (Hall y Hy). unfold key_rel, key_le in Hall. lia.
+Qed.
+
+Lemma strongly_sorted_impl {A} (R S : A -> A -> Prop) l : (forall x y, R x y -> S x y) -> StronglySorted R l -> StronglySorted S l.
+Proof.
+  intros HRS Hs. induction Hs as [|x t Hst IH Hall]; constructor; [exact IH|].
+  rewrite Forall_forall in *. intros y Hy. apply HRS, Hall, Hy.
+Qed.
+
+(* the time bundles of a key-sorted sequence: every bundle is a complete bin [o + k w, o + (k+1) w) of the
+   sequence, the bundles come in increasing bin order, and o is midnight of the day of the first file *)
+Lemma bundle_f_bins (w : Z) (l : list file) : 0 < w -> Sorted key_rel l ->
+  (forall g x, In g (bundle_f w l) -> In x g ->
+     g = filter (fun f => bin_of w (origin_of l) f =? bin_of w (origin_of l) x) l
+     /\ origin_of l + bin_of w (origin_of l) x * w <= t0 x < origin_of l + (bin_of w (origin_of l) x + 1) * w)
+  /\ groups_increase (bin_of w (origin_of l)) (bundle_f w l)
+  /\ (forall x t, l = x :: t -> origin_of l = t0 x / us_day * us_day /\ 0 <= bin_of w (origin_of l) x).
+Proof.
+  intros Hw Hs. set (o := origin_of l). unfold bundle_f. fold o.
+  destruct (group_runs_ok (bin_of w o) l) as (Hc & _ & Hsb & _).
+  assert (Hinc : groups_increase (bin_of w o) (group_runs (bin_of w o) l)).
+  { apply group_runs_increase. apply (strongly_sorted_impl (fun x y : file => t0 x <= t0 y)); [|apply sorted_t0_mono; exact Hs].
+    intros x y Hxy. unfold bin_of. apply Z.div_le_mono; lia. }
+  split; [|split; [exact Hinc|]].
+  - intros g x Hg Hx. split.
+    + pose proof (groups_complete (bin_of w o) _ Hsb Hinc g x Hg Hx) as G. rewrite Hc in G. exact G.
+    + apply (bin_edges_lemma w o (t0 x) (bin_of w o x) Hw). reflexivity.
+  - intros x t ->. subst o. cbn [origin_of trunc_to]. split; [reflexivity|].
+    unfold bin_of. cbn [origin_of trunc_to]. apply Z.div_pos; [|lia].
+    pose proof (Z.mul_div_le (t0 x) us_day). unfold us_day in *. lia.
+Qed.
+
+(* bundling does not disturb that order: both bundlers only cut the sequence *)
+Lemma bundles_stable_lemma fs q a b (k : nat) (w : Z) : (0 < k)%nat ->
+  filter (has_key a b) (concat (bundle_n k (find_spec fs q))) = filter (fun f => selected q f && has_key a b f) fs
+  /\ filter (has_key a b) (concat (bundle_f w (find_spec fs q))) = filter (fun f => selected q f && has_key a b f) fs.
+Proof.
+  intros Hk. destruct (bundle_n_ok k (find_spec fs q) Hk) as (C1 & _).
+  destruct (group_runs_ok (bin_of w (origin_of (find_spec fs q))) (find_spec fs q)) as (C2 & _).
+  unfold bundle_f. rewrite C1, C2. split; apply find_spec_stable.
+Qed.
+
+Lemma bin_of_edges (w o k : Z) (f : file) : 0 < w -> (bin_of w o f = k <-> bin_lo w o k <= t0 f < bin_lo w o (k + 1)).
+Proof. intros Hw. unfold bin_of, bin_lo. apply bin_edges_lemma. exact Hw. Qed.
